@@ -1012,8 +1012,15 @@ def scan(
       c, y = fn(scope, c, *args)
       out_vars = repack_fn(scope)
       broadcast_vars_out = out_vars[0]
+      carry_vars_in = carry_vars
       carry_vars = out_vars[1]
       scan_vars = out_vars[2:]
+      # immutable carry collections are carried through unchanged, otherwise
+      # the carry that comes out lacks the collections that went in
+      for in_group, out_group in zip(carry_vars_in, carry_vars):
+        for col in in_group:
+          if col not in out_group:
+            out_group[col] = in_group[col]
       # add immutable broadcast vars back to broadcast output
       # otherwise they won't be fed to the actual scan body
       for in_group, out_group in zip(broadcast_vars, broadcast_vars_out):
